@@ -33,6 +33,15 @@ theorem parseScope_wf (s : Bytes) : WF (parseScope s) := Scope.parseScope_wf s
 theorem mem_newScope (r : RS) (l : List RS) : Mem r (newScope l) ↔ r ∈ l :=
   Scope.mem_newScope r l
 
+/-- Construction from a scope string agrees with the naive set: the scope `ParseScope`
+builds from a text denotes exactly the union, over the space-separated words of the
+text (`fields` = `strings.Fields`), of the resource scopes a word stands for
+(`parseField`: `type:resource:a1,a2,…` stands for one triple per action, any other
+word `w` for the triple `(w, "", "")`) — for every byte string. -/
+theorem mem_parseScope (r : RS) (s : Bytes) :
+    Mem r (parseScope s) ↔ ∃ w ∈ fields s, r ∈ parseField w :=
+  Scope.mem_parseScope r s
+
 /-! ### P4 — iteration is strictly ascending -/
 
 theorem iter_strictAsc (s : Scope) (h : WF s) : StrictAsc (iter s) :=
@@ -154,5 +163,13 @@ example : toStr exA =
       121, 58, 98, 58, 100] : Bytes) := by
   decide
 example : equal (parseScope (toStr exA)) exA = true := by decide
+/-- `mem_parseScope` on "repository:a:pull,push  foo" (two spaces): two words, three triples. -/
+example :
+    let s : Bytes := strBytes "repository:a:pull,push  foo"
+    fields s = [strBytes "repository:a:pull,push", strBytes "foo"] ∧
+    (fields s).flatMap parseField =
+      [(tyRepository, [97], actPull), (tyRepository, [97], actPush), ([102, 111, 111], [], [])] ∧
+    iter (parseScope s) =
+      [([102, 111, 111], [], []), (tyRepository, [97], actPull), (tyRepository, [97], actPush)] := by decide
 
 end OciModel.Props.C09
